@@ -82,3 +82,175 @@ theorem binSum_counts (h : Hist ℚ) (vs : List ℚ) (acc : Accounts h vs) : ∀
     exact countP_glue vs _ _ _ hl hk
 
 end EaselModel.Stats
+
+namespace EaselModel.Stats
+
+/-- every rational lies in the bin `⌈(x-bmin)/w - 1⌉` (for `w > 0`) -/
+theorem inBin_ceil (bmin w : ℚ) (hw : 0 < w) (x : ℚ) : inBin bmin w ⌈(x - bmin) / w - 1⌉ x := by
+  have hb1 : (x - bmin) / w - 1 ≤ (⌈(x - bmin) / w - 1⌉ : ℚ) := Int.le_ceil _
+  have hb2 : (⌈(x - bmin) / w - 1⌉ : ℚ) < (x - bmin) / w - 1 + 1 := Int.ceil_lt_add_one _
+  unfold inBin
+  have e : x - bmin = (x - bmin) / w * w := by field_simp
+  constructor <;> nlinarith
+
+/-- every accepted value sits in a bin between `imin` and `imax`, hence in `(bmin + imin·w, bmin + (imax+1)·w]` -/
+theorem value_range (h : Hist ℚ) (vs : List ℚ) (acc : Accounts h vs) (v : ℚ) (hv : v ∈ vs) :
+    h.bmin + h.imin * h.w < v ∧ v ≤ h.bmin + (h.imax + 1) * h.w := by
+  have hw := acc.wpos
+  have hin := inBin_ceil h.bmin h.w hw v
+  set i := ⌈(v - h.bmin) / h.w - 1⌉
+  have hc : 0 < obsAt h.obs i := by
+    rw [acc.counts i]
+    exact List.countP_pos_iff.2 ⟨v, hv, by simpa using hin⟩
+  have h1 : h.imin ≤ i := by
+    by_contra hlt; rw [acc.below i (by omega)] at hc; exact absurd hc (lt_irrefl 0)
+  have h2 : i ≤ h.imax := by
+    by_contra hgt; rw [acc.above i (by omega)] at hc; exact absurd hc (lt_irrefl 0)
+  unfold inBin at hin
+  have a1 : (h.imin : ℚ) ≤ i := by exact_mod_cast h1
+  have a2 : (i : ℚ) ≤ h.imax := by exact_mod_cast h2
+  constructor
+  · nlinarith [hin.1]
+  · nlinarith [hin.2]
+
+/-- **`esl_histogram_DeclareCensoring(z, phi)`** on data `vs ≠ []`: eslEINVAL (nothing changes) exactly when some observed value is
+    below `phi`... i.e. when `phi` exceeds the smallest raw value; otherwise eslOK with `z` censored, `Nc = n + z`, `No = n`,
+    the stated `phi`, and the histogram finished. -/
+theorem declareCensoring_spec (h : Hist ℚ) (vs : List ℚ) (acc : Accounts h vs) (hne : vs ≠ []) (z : Int) (hz : 0 ≤ z) (phi : ℚ) :
+    ((∃ v ∈ vs, v < phi) → h.declareCensoring z phi = (.einval, h)) ∧
+    ((∀ v ∈ vs, phi ≤ v) → ∃ h', h.declareCensoring z phi = (.ok, h') ∧ h'.z = z.toNat ∧ h'.nc = vs.length + z.toNat ∧
+        h'.no = vs.length ∧ h'.phi = phi ∧ h'.isDone = true ∧ h'.datasetIs = .trueCensored ∧ h'.obs = h.obs ∧ h'.cmin = h.imin) := by
+  obtain ⟨m1, _⟩ := acc.xmem hne
+  constructor
+  · intro ⟨v, hv, hlt⟩
+    unfold Hist.declareCensoring
+    have : Num.gtb phi h.xmin = true := (gtb_q _ _).2 (lt_of_le_of_lt (acc.xlo v hv).1 hlt)
+    rw [if_pos this]
+  · intro hall
+    unfold Hist.declareCensoring
+    have : ¬ Num.gtb phi h.xmin = true := by rw [gtb_q]; exact not_lt.2 (hall _ m1)
+    rw [if_neg this]
+    exact ⟨_, rfl, rfl, by show h.n + z.toNat = _; rw [acc.n], by show h.n = _; rw [acc.n], rfl, rfl, rfl, rfl, rfl⟩
+
+end EaselModel.Stats
+
+namespace EaselModel.Stats
+
+@[simp] theorem eqb_q (a b : ℚ) : (Num.eqb a b = true) ↔ a = b := by simp [Num.eqb]
+
+theorem lbound_q (h : Hist ℚ) (i : Int) : h.lbound i = h.bmin + i * h.w := by
+  unfold Hist.lbound; simp only [ofInt_q]; ring
+
+theorem ubound_q (h : Hist ℚ) (i : Int) : h.ubound i = h.bmin + (i + 1) * h.w := by
+  unfold Hist.ubound; simp only [ofInt_q]; push_cast; ring
+
+/-- the index bookkeeping is in one of two states -/
+theorem idx_state (h : Hist ℚ) (vs : List ℚ) (acc : Accounts h vs) :
+    (vs = [] ∧ h.imin = h.nb ∧ h.imax = -1) ∨ (vs ≠ [] ∧ 0 ≤ h.imin ∧ h.imin ≤ h.imax ∧ h.imax < h.nb) := by
+  by_cases hvs : vs = []
+  · exact Or.inl ⟨hvs, acc.sent hvs⟩
+  · right
+    obtain ⟨o1, _⟩ := acc.occ hvs
+    rcases acc.idx with ⟨i1, i2⟩ | ⟨i1, i2, i3⟩
+    · exfalso; rw [acc.above h.imin (by have := acc.wf.nb_pos; omega)] at o1; omega
+    · exact ⟨hvs, i1, i2, i3⟩
+
+/-- **`esl_histogram_SetTail(phi)`** (finite `phi` whose bin number fits an `int`): no fault; the threshold actually used is the bin
+    boundary `bmin + k·w` with `phi - w < bmin + k·w ≤ phi`; `cmin = max(k, 0)`; and the censoring agrees with the raw data:
+    `z` = the number of accepted values `≤` that threshold, `No = n - z`, `Nc = n`; counts untouched; histogram finished. -/
+theorem setTail_spec (h : Hist ℚ) (vs : List ℚ) (acc : Accounts h vs) (phi : ℚ) (hfin : |phi| ≤ dblMaxQ)
+    (hr : -2147483648 ≤ ⌈(phi - h.bmin) / h.w - 1⌉ ∧ ⌈(phi - h.bmin) / h.w - 1⌉ < 2147483647) :
+    ∃ h' mass k, h.setTail phi = .val (.ok, h', mass) ∧ h'.phi = h.bmin + (k : Int) * h.w ∧ h'.phi ≤ phi ∧ phi - h'.phi < h.w ∧
+      h'.cmin = max k 0 ∧ h'.z = vs.countP (fun x => decide (x ≤ h'.phi)) ∧ h'.no = vs.length - h'.z ∧ h'.nc = vs.length ∧
+      h'.obs = h.obs ∧ h'.isDone = true ∧ h'.datasetIs = .virtualCensored := by
+  have hw := acc.wpos
+  have hsb := score2bin_q h hw phi
+  simp only at hsb
+  set c0 := ⌈(phi - h.bmin) / h.w - 1⌉ with hc0
+  rcases hsb with ⟨hs, hin, _, _, _⟩ | ⟨_, hbad⟩
+  swap
+  · exfalso; rcases hbad with hb | hb | hb
+    · exact hb hfin
+    · omega
+    · omega
+  unfold inBin at hin
+  -- the two cases of the code
+  have hedge : (phi = h.ubound c0) ∨ (phi ≠ h.ubound c0) := em _
+  set c : Int := if Num.eqb phi (h.ubound c0) = true then c0 + 1 else c0 with hc
+  set newphi : ℚ := if Num.eqb phi (h.ubound c0) = true then phi else h.lbound c0 with hnp
+  have hphi : newphi = h.bmin + (c : ℚ) * h.w ∧ newphi ≤ phi ∧ phi - newphi < h.w := by
+    by_cases e : phi = h.ubound c0
+    · have he : Num.eqb phi (h.ubound c0) = true := (eqb_q _ _).2 e
+      simp only [hc, hnp, he, if_true]
+      refine ⟨?_, le_refl _, by linarith⟩
+      rw [ubound_q] at e; rw [e]; push_cast; ring
+    · have he : ¬ Num.eqb phi (h.ubound c0) = true := by rw [eqb_q]; exact e
+      simp only [hc, hnp, he, if_false, Bool.false_eq_true]
+      rw [lbound_q]
+      refine ⟨rfl, le_of_lt hin.1, ?_⟩
+      rw [ubound_q] at e
+      have : phi < h.bmin + ((c0 : ℚ) + 1) * h.w := lt_of_le_of_ne hin.2 e
+      linarith
+  have hcr : c0 ≤ c ∧ c ≤ c0 + 1 := by
+    simp only [hc]; split <;> omega
+  -- the scan
+  have hst := idx_state h vs acc
+  have hsz := acc.wf.size
+  have hscan : sumObs h.obs h.imin (min c (h.imax + 1) - h.imin).toNat 0 =
+      .val (0 + binSum h.obs h.imin (min c (h.imax + 1) - h.imin).toNat) := by
+    apply sumObs_eq
+    · rcases hst with ⟨_, i1, _⟩ | ⟨_, i1, _, _⟩
+      · rw [i1]; exact le_of_lt acc.wf.nb_pos
+      · exact i1
+    · rcases hst with ⟨_, i1, i2⟩ | ⟨_, i1, i2, i3⟩
+      · rw [i1, i2]; omega
+      · omega
+  have hz : binSum h.obs h.imin (min c (h.imax + 1) - h.imin).toNat = vs.countP (fun x => decide (x ≤ newphi)) := by
+    rw [binSum_counts h vs acc]
+    apply List.countP_congr
+    intro v hv
+    simp only [decide_eq_true_eq]
+    obtain ⟨r1, r2⟩ := value_range h vs acc v hv
+    rw [hphi.1]
+    have hne : vs ≠ [] := List.ne_nil_of_mem hv
+    rcases hst with ⟨hvs, _, _⟩ | ⟨_, i1, i2, i3⟩
+    · exact absurd hvs hne
+    · by_cases ck : min c (h.imax + 1) ≤ h.imin
+      · have e0 : (min c (h.imax + 1) - h.imin).toNat = 0 := by omega
+        rw [e0]
+        have hci : c ≤ h.imin := by omega
+        have : (c : ℚ) ≤ h.imin := by exact_mod_cast hci
+        constructor
+        · intro ⟨a, b⟩; simp only [Nat.cast_zero, add_zero] at b; exact absurd a (not_lt.2 b)
+        · intro hle; exfalso; nlinarith
+      · have ek : ((min c (h.imax + 1) - h.imin).toNat : ℚ) = ((min c (h.imax + 1) - h.imin : Int) : ℚ) := by
+          have : (((min c (h.imax + 1) - h.imin).toNat : Nat) : Int) = min c (h.imax + 1) - h.imin := by omega
+          exact_mod_cast this
+        rw [ek]
+        have eu : (h.imin : ℚ) + ((min c (h.imax + 1) - h.imin : Int) : ℚ) = ((min c (h.imax + 1) : Int) : ℚ) := by push_cast; ring
+        rw [eu]
+        by_cases cc : c ≤ h.imax + 1
+        · rw [min_eq_left cc]
+          exact ⟨fun hh => hh.2, fun hh => ⟨r1, hh⟩⟩
+        · rw [min_eq_right (by omega)]
+          have : ((h.imax + 1 : Int) : ℚ) ≤ c := by exact_mod_cast (by omega : h.imax + 1 ≤ c)
+          push_cast at this ⊢
+          constructor
+          · intro _; nlinarith
+          · intro _; exact ⟨r1, r2⟩
+  have hzle : vs.countP (fun x => decide (x ≤ newphi)) ≤ h.n := by rw [acc.n]; exact List.countP_le_length
+  unfold Hist.setTail
+  simp only [hs, bne_self_eq_false, Bool.false_eq_true, if_false]
+  have hir : inIntRange (c0 + 1) = true := by rw [inIntRange_iff]; omega
+  simp only [hir, Bool.not_true, Bool.false_eq_true, if_false]
+  have hcdef : (if Num.eqb phi (h.ubound c0) = true then c0 + 1 else c0) = c := rfl
+  have hnpdef : (if Num.eqb phi (h.ubound c0) = true then phi else h.lbound c0) = newphi := rfl
+  simp only [hcdef, hnpdef]
+  rw [hscan, Nat.zero_add, hz]
+  simp only [if_pos hzle]
+  refine ⟨_, _, c, rfl, hphi.1, hphi.2.1, hphi.2.2, ?_, rfl, ?_, acc.n, rfl, rfl, rfl⟩
+  · show (if c < 0 then 0 else c) = max c 0
+    split <;> omega
+  · show h.n - _ = vs.length - _; rw [acc.n]
+
+end EaselModel.Stats
